@@ -91,6 +91,51 @@ pub proof fn lemma_key3_injective<A, B, C>(a1: A, b1: B, c1: C, a2: A, b2: B, c2
     lemma_key2_injective(b1, c1, b2, c2);
 }
 
+/// '|'-joined concatenation of any number of renderings (the shape the key builders produce: Vec<String>::join("|"))
+pub open spec fn join_r(p: Seq<Seq<char>>) -> Seq<char>
+    decreases p.len()
+{
+    if p.len() == 0 { Seq::empty() } else if p.len() == 1 { p[0] } else { p[0] + bar() + join_r(p.skip(1)) }
+}
+/// two renderings are separable: followed by the separator, one is never a proper prefix of the other followed by it
+pub open spec fn separable(x: Seq<char>, y: Seq<char>) -> bool {
+    forall|r1: Seq<char>, r2: Seq<char>| #[trigger] (x + bar() + r1) == #[trigger] (y + bar() + r2) ==> x == y
+}
+/// renderings of two values of a '|'-safe key type are separable
+pub proof fn lemma_bar_safe_separable<T>(x: T, y: T)
+    requires debug_bar_safe::<T>()
+    ensures separable(debug_str(&x), debug_str(&y))
+{ }
+/// C02 for ANY number of key parts (the property quantifies over 1-5 arguments plus a receiver): position-wise separable
+/// renderings joined with '|' are equal only if every part is; with injective renderings the argument tuples are equal
+pub proof fn lemma_join_injective(p: Seq<Seq<char>>, q: Seq<Seq<char>>)
+    requires p.len() == q.len(), forall|i: int| 0 <= i < p.len() - 1 ==> separable(#[trigger] p[i], q[i]), join_r(p) == join_r(q)
+    ensures p == q
+    decreases p.len()
+{
+    if p.len() == 0 { assert(p =~= q); }
+    else if p.len() == 1 { assert(p =~= q); }
+    else {
+        let (rp, rq) = (join_r(p.skip(1)), join_r(q.skip(1)));
+        assert(separable(p[0], q[0]));
+        assert(p[0] + bar() + rp == q[0] + bar() + rq);
+        assert(p[0] == q[0]);
+        assert(p[0] + bar() + rp =~= (p[0] + bar()) + rp);
+        assert(q[0] + bar() + rq =~= (p[0] + bar()) + rq);
+        lemma_cancel(p[0] + bar(), rp, rq);
+        assert forall|i: int| 0 <= i < p.skip(1).len() - 1 implies separable(#[trigger] p.skip(1)[i], q.skip(1)[i]) by {
+            assert(p.skip(1)[i] == p[i + 1] && q.skip(1)[i] == q[i + 1]);
+            assert(separable(p[i + 1], q[i + 1]));
+        }
+        lemma_join_injective(p.skip(1), q.skip(1));
+        assert(p =~= q) by {
+            assert forall|i: int| 0 <= i < p.len() implies p[i] == q[i] by {
+                if i > 0 { assert(p.skip(1)[i - 1] == p[i]); assert(q.skip(1)[i - 1] == q[i]); }
+            }
+        }
+    }
+}
+
 /// the separator matters: without it two different integer pairs collide (1,23) / (12,3) -- the lemma above has no
 /// counterpart for the empty separator, so a key builder that drops '|' cannot meet the wrapper contracts.
 ''')
@@ -117,7 +162,7 @@ def other_impls():
 
 UNIT = dict(
     name='keys',
-    lemma_props={'lemma_key1_injective': ['C02'], 'lemma_key2_injective': ['C02'], 'lemma_key3_injective': ['C02'], 'lemma_cancel': ['C02'], '*': ['C02']},
+    lemma_props={'lemma_join_injective': ['C02'], 'lemma_bar_safe_separable': ['C02'], 'lemma_key1_injective': ['C02'], 'lemma_key2_injective': ['C02'], 'lemma_key3_injective': ['C02'], 'lemma_cancel': ['C02'], '*': ['C02']},
     items=[SPEC,
            dict(kind='fn', file=KEYS, impl=BLANKET, name='to_cache_key', label='CacheableKey::to_cache_key', keep_private=True, props=['C02'], rules=[FORMAT_RULE]),
            ] + other_impls(),
